@@ -78,6 +78,47 @@ def main():
             rac.fail(f"expr {shapes[i]} | {shapes[j]}", f"expressions {shapes[i]} / {shapes[j]}: == {E1[i] == E2[j]}, hash equal {hash(E1[i]) == hash(E2[j])}",
                      PRELUDE + f"import xdeps\nr = xdeps.Manager().ref({{}}, 'd'); a = {shapes[i]}\nr = xdeps.Manager().ref({{}}, 'd'); b = {shapes[j]}\nassert (a == b) == {same} and ({not same} or hash(a) == hash(b))\n",
                      "BinOpExpr.__cinit__")
+    rac.section("rebuilt", "every node class: the same structure obtained by another construction route (copy.copy, "
+                "the class applied to __reduce__'s arguments, CallRef kwargs as dict vs tuple of pairs, evaluation of the "
+                "printed form) is equal and hashes equally", "18 expression shapes x 4 routes")
+    import copy
+    import math
+    import xdeps.refs as R
+
+    class F:
+        @staticmethod
+        def f(*a, **k):
+            return 0
+    fr = xdeps.Manager().ref(F, "f")
+    more = ["r['a'] + r['b']", "-r['a']", "abs(r['a'])", "round(r['a'], 2)", "round(r['a'])", "divmod(r['a'], r['b'])",
+            "math.floor(r['a'])", "fr.f(r['a'], 2)", "fr.f(r['a'], k=r['b'])", "fr.f(k=1, j=r['a'])", "fr.f()",
+            "R.CallRef(fr.f, (r['a'],), {'k': 2, 'j': r['b']})", "R.CallRef(fr.f, (r['a'],), (('k', 2), ('j', r['b'])))",
+            "R.LiteralExpr(3) + r['a']", "r['n']['x'] * r['l'][0]", "r['n'].x ** 2", "r[r['k']]", "(r['a'] < 2) | (r['b'] > 1)"]
+    for src_ in more:
+        e = eval(src_, dict(r=r1, fr=fr, R=R, math=math))
+        routes = {"copy.copy": lambda q: copy.copy(q), "reduce": lambda q: q.__reduce__()[0](*q.__reduce__()[1]),
+                  "rebuilt": lambda q: eval(src_, dict(r=r2, fr=fr, R=R, math=math))}
+        if isinstance(e, R.CallRef):
+            routes["kwargs-as-dict"] = lambda q: R.CallRef(q._func, q._args, dict(q._kwargs))
+            routes["kwargs-as-pairs"] = lambda q: R.CallRef(q._func, q._args, tuple(q._kwargs))
+        for rn, route in routes.items():
+            try:
+                e2 = route(e)
+            except Exception as ex:      # noqa
+                continue
+            rac.case(("rebuilt", src_, rn), nontrivial=True, sample=(src_, rn))
+            if not (e == e2) or hash(e) != hash(e2) or {e: 1}.get(e2) != 1:
+                route_src = {"copy.copy": "e2 = copy.copy(e)", "reduce": "e2 = e.__reduce__()[0](*e.__reduce__()[1])",
+                             "rebuilt": "r = xdeps.Manager().ref({}, 'd'); e2 = " + src_,
+                             "kwargs-as-dict": "e2 = R.CallRef(e._func, e._args, dict(e._kwargs))",
+                             "kwargs-as-pairs": "e2 = R.CallRef(e._func, e._args, tuple(e._kwargs))"}[rn]
+                scr = "\n".join([PRELUDE, "import xdeps, copy, math", "import xdeps.refs as R", "class F:",
+                                 "    @staticmethod", "    def f(*a, **k): return 0",
+                                 "fr = xdeps.Manager().ref(F, 'f'); r = xdeps.Manager().ref({}, 'd')", "e = " + src_, route_src,
+                                 "print(e, e2, hash(e), hash(e2))",
+                                 "assert e == e2 and hash(e) == hash(e2) and {e: 1}.get(e2) == 1", ""])
+                rac.fail(f"rebuilt {src_} via {rn}", f"{src_} rebuilt via {rn}: == {e == e2}, hash equal {hash(e) == hash(e2)}",
+                         scr, type(e).__name__ + ".__cinit__")
     rac.section("collisions", "hash spread over a family of similar keys: a hash that ignores the key would pass the equality "
                 "contract, so the number of distinct hashes is bounded from below", "N similar keys, >= 99% distinct hashes", exhaustive=False)
     N = 5000 if quick else 20000
